@@ -19,7 +19,7 @@ ALL = [f"C{i:02d}" for i in range(1, 21)]
 
 
 def run_demo(src, demo):
-    env = dict(os.environ, PYTHONPATH=src, PYTHONDONTWRITEBYTECODE="1")
+    env = dict(os.environ, PYTHONPATH=src, PYTHONDONTWRITEBYTECODE="1", TMPDIR=os.path.dirname(src))  # demos may create temporary files: keep them in the scratch directory
     r = subprocess.run(["/venv/bin/python", demo], cwd=src, env=env, capture_output=True, text=True, timeout=600)
     return r.returncode, (r.stdout + r.stderr)[-300:]
 
